@@ -82,10 +82,16 @@ Init == \/ /\ mode = "single" /\ v \in Violations(Base) /\ w = [label |-> "none"
             /\ w \in {x \in Violations(Base) : ~Valid(x.label) /\ Edits(x.label) \cap Edits(v.label) = {} /\ x.label \notin {"bad-type-name", "type-name-with-trailing-newline", "root-not-object", "no-query-root"}
                                                   /\ v.label \notin {"bad-type-name", "type-name-with-trailing-newline", "root-not-object", "no-query-root"}}
         \/ /\ mode = "matrix" /\ v \in Matrix /\ w = [label |-> "none"]
+        \* two violations on ONE field of one implementation: its type is not covariant AND an interface argument is missing
+        \/ /\ mode = "double" /\ w = [label |-> "none"]
+            /\ v = [label |-> "double", new |-> Set(Set(Base, "Node", [T(Base, "Node") EXCEPT !.fields[1].args = <<D!Arg("q", Named("Int"))>>]),
+                                                    "A", [T(Base, "A") EXCEPT !.fields[1].type = Named("Int")])]
 Next == FALSE /\ UNCHANGED vars
 Spec == Init /\ [][Next]_vars
 Emit == PrintT("VIO " \o ToJson(
    IF mode = "single" THEN [mode |-> mode, labels |-> <<v.label>>, mention |-> <<Mention[v.label]>>, new |-> v.new, valid |-> Valid(v.label)]
    ELSE IF mode = "pair" THEN [mode |-> mode, labels |-> <<v.label, w.label>>, mention |-> <<Mention[v.label], Mention[w.label]>>, new |-> Compose(v, w), valid |-> FALSE]
+   ELSE IF mode = "double" THEN [mode |-> "pair", labels |-> <<"interface-field-not-covariant", "interface-arg-missing-on-the-same-field">>,
+                                 mention |-> <<"expects type", "is not provided by">>, new |-> v.new, valid |-> FALSE]
    ELSE [mode |-> mode, labels |-> <<"covariance">>, mention |-> <<"Node">>, new |-> v.new, valid |-> v.valid, it |-> v.it, ot |-> v.ot]))
 =============================================================================
